@@ -104,23 +104,25 @@ for _k in list(CLAIMS):
 # Rules added after the second round of seeded changes (DESIGN.md 8.3 / 9.2), appended to the
 # claim texts so that each check's entry says what it decides today.
 _EXTRA = {
- "C01": " Added: what a setter stores into Message.bytes is its parameter, nil or parser output (an empty payload cannot become the null one), and IsNil tests == nil; the serializer model follows helpers and both the bytes.Buffer and the append idiom.",
- "C02": " Added: the error edge of Parser.Next leaves the request loop (no further read on a stream whose position is unknown); the bulk body may also be a full-read of `declared` bytes followed by a checked 2-byte full-read of the delimiter.",
- "C03": " Added: no retry after a parser error; the serializer fails only for an undeclared type or a nested failure, never depending on payload content (an unserializable reply is silently dropped); a blocking read counts as loop progress only if its failure leaves the loop.",
- "C04": " Added: a connection handed as io.Writer to code outside the repository counts as a write site; a payload written raw is accepted only on paths that excluded CR and LF by a test or validator.",
- "C05": " Added: constants chosen because of an argument's value are rendered as such (an explicit 0 is not 'absent'); decoding is chunk-independent (parser read idioms) and replies are built in call-local storage; executor factories, function-valued parameters and option structs filled through helpers are followed.",
- "C07": " Added: nil results of functions that can return (nil, nil) are tested before any dereference on the request path; no call under a held mutex reaches an acquisition of the same mutex (re-entrant RLock/Lock); no map or field of a mutex-carrying struct is written under its read lock only (framework and example store).",
- "C08": " Added: the framework only appends to the authenticator list (never clears or replaces it); authenticators are read-only below Authenticate (no per-request scratch state shared between connections).",
- "C09": " Added: the framework never clears the authenticator list (a dropped common-name rule would admit any certificate of the CA).",
- "C10": " Added: expiry stores outside option loops are bounded below by 1 through whichever helper read the value; optional-tail helpers are attributed to the executors calling them.",
- "C11": " Added: no retry after a parser error; after the handler call the loop is left only through QUIT (a failed reply write does not drop the requests already received); RemoveConn deletes its entry on every path.",
- "C12": " Added: IsNil (how derived commands tell a missing key from an empty value) tests payload == nil.",
- "C13": " Added: a framework handler never returns an error reply with a nil error and SetDatabase runs only under err == nil; authenticators are read-only below Authenticate.",
- "C14": " Added: no write under a read lock, no re-entrant acquisition, read-only authenticators, call-local reply buffers, and no method of a guarded struct returning a slice that another method writes in place.",
- "C15": " Added: an accept loop ends on its listener's closure (net.ErrClosed) whatever any server-wide flag says.",
- "C16": " Added: replies are serialized into call-local storage (a pooled buffer returned before the write lets one client read another's reply).",
- "C19": " Added: accept loops end with their listener; every loop of the framework makes progress (a spinning parser loop keeps goroutine, socket and registry entry); RemoveConn deletes on every path.",
- "C20": " Added: on the request path, nil results of (nil, nil)-returning functions are tested before dereference (the one panic class the framework produces itself, which would leave the root span open).",
+ "C01": " Added: what a setter stores into Message.bytes is its parameter, nil or parser output (an empty payload cannot become the null one), and IsNil tests == nil; the serializer model follows helpers and both the bytes.Buffer and the append idiom. Round 3: the accumulate loop's completeness test is checked in the right direction.",
+ "C02": " Added: the error edge of Parser.Next leaves the request loop (no further read on a stream whose position is unknown); the bulk body may also be a full-read of `declared` bytes followed by a checked 2-byte full-read of the delimiter. Round 3: parser state written before a nested Next is restored on every exit.",
+ "C03": " Added: no retry after a parser error; the serializer fails only for an undeclared type or a nested failure, never depending on payload content (an unserializable reply is silently dropped); a blocking read counts as loop progress only if its failure leaves the loop. Round 3: a loop bounded only by a client-supplied integer does data-proportional work per cycle (found LPOP/RPOP, repaired in 25cbbf7); every index/slice in executors and argument helpers is proven in range; a goroutine started in a loop owns per-iteration values.",
+ "C04": " Added: a connection handed as io.Writer to code outside the repository counts as a write site; a payload written raw is accepted only on paths that excluded CR and LF by a test or validator. Round 3: no write deadline on client connections while the loop continues after a failed write; reply encoders reached through repository interfaces are followed.",
+ "C05": " Added: constants chosen because of an argument's value are rendered as such (an explicit 0 is not 'absent'); decoding is chunk-independent (parser read idioms) and replies are built in call-local storage; executor factories, function-valued parameters and option structs filled through helpers are followed. Round 3: the bit size of float conversions is part of the signature (float32(A2) differs from float(A2)); the glob translation rules of C17 are run here too (SCAN MATCH).",
+ "C07": " Added: nil results of functions that can return (nil, nil) are tested before any dereference on the request path; no call under a held mutex reaches an acquisition of the same mutex (re-entrant RLock/Lock); no map or field of a mutex-carrying struct is written under its read lock only (framework and example store). Round 3: allocations sized by a client integer are bounded by data length; the accept loop's goroutine captures no variable shared between iterations.",
+ "C08": " Added: the framework only appends to the authenticator list (never clears or replaces it); authenticators are read-only below Authenticate (no per-request scratch state shared between connections). Round 3: SetPassword/SetUserName store their argument on every path; password presence is a flag, not derived from content.",
+ "C09": " Added: the framework never clears the authenticator list (a dropped common-name rule would admit any certificate of the CA). Round 3: authenticators decide by equality over the whole credential (no prefix, length-only or case-folded comparison).",
+ "C10": " Added: expiry stores outside option loops are bounded below by 1 through whichever helper read the value; optional-tail helpers are attributed to the executors calling them. Round 3: every index and slice expression in executors and argument helpers is proven in range by the inequality prover.",
+ "C11": " Added: no retry after a parser error; after the handler call the loop is left only through QUIT (a failed reply write does not drop the requests already received); RemoveConn deletes its entry on every path. Round 3: a goroutine started in a loop owns per-iteration values.",
+ "C12": " Added: IsNil (how derived commands tell a missing key from an empty value) tests payload == nil. Round 3: CONFIG GET pairs each key with the value read in the same iteration.",
+ "C13": " Added: a framework handler never returns an error reply with a nil error and SetDatabase runs only under err == nil; authenticators are read-only below Authenticate. Round 3: the accept loop's goroutine captures no variable shared between iterations; password presence is a flag set unconditionally.",
+ "C14": " Added: no write under a read lock, no re-entrant acquisition, read-only authenticators, call-local reply buffers, and no method of a guarded struct returning a slice that another method writes in place. Round 3: executor closures share no captured cell, through nested field addresses.",
+ "C15": " Added: an accept loop ends on its listener's closure (net.ErrClosed) whatever any server-wide flag says. Round 3: the registry key is assigned once from uuid.New*; Stop closes the listeners that are open, guarded by nothing but nil tests of the listener and earlier Close errors.",
+ "C16": " Added: replies are serialized into call-local storage (a pooled buffer returned before the write lets one client read another's reply). Round 3: executor closures share no captured cell.",
+ "C19": " Added: accept loops end with their listener; every loop of the framework makes progress (a spinning parser loop keeps goroutine, socket and registry entry); RemoveConn deletes on every path. Round 3: client-bounded loops; unique registry key; goroutines own per-iteration values.",
+ "C20": " Added: on the request path, nil results of (nil, nil)-returning functions are tested before dereference (the one panic class the framework produces itself, which would leave the root span open). Round 3: the span slot Conn.Context is written only by the constructor and SetSpanContext, never from the lifecycle API's goroutine; index safety over executors.",
+ "C17": " Round 3: translation by bytes instead of runes is reported; a compiled glob is consulted through Match* only.",
+ "C18": " Round 3: an in-place helper (reverse/sort) is never handed a reslice of a container's own field; a loop that stores to a receiver field does not consult a copy of it taken before the loop; float conversions use 64 bits.",
 }
 for _k, _t in _EXTRA.items():
     if _k in CLAIMS:
